@@ -453,7 +453,7 @@ func flattenScenarios(tier string, seed int64, scratch string) ([]*Case, []strin
 			b.Files[id] = scenarioFiles[id]
 		}
 		b.Feat = Features{NAux: len(fs.Docs) - 1, Collision: fs.C != "none" || fs.T == "anonimport",
-			Anon:      fs.T == "anonprop" || fs.T == "anonitems" || fs.T == "anonallof" || fs.T == "anonsibling" || fs.T == "anonimport",
+			Anon:      fs.T == "anonprop" || fs.T == "anonitems" || fs.T == "anonallof" || fs.T == "anonsibling" || fs.T == "anonimport" || fs.T == "anoncase",
 			SharedPtr: fs.T == "sharedparam" || fs.T == "sharedresp",
 			// a pointer nested in a pointer target belongs to the wider class W+ (C09 only)
 			// ... and so do holders under keywords that Swagger 2.0 does not have (patternProperties, anyOf, oneOf, not, nested definitions)
